@@ -923,6 +923,37 @@ func addAxiom(name string, body *Term, triggers ...string) {
 
 // emitQuery renders: assert all hyps; assert not goal; check-sat.
 func emitQuery(hyps []*Term, goal *Term, wantModel bool) (string, []string) {
+	return emitQueryOpt(hyps, goal, wantModel, false)
+}
+
+func hasQuant(t *Term, seen map[int]bool) bool {
+	if seen[t.id] {
+		return false
+	}
+	seen[t.id] = true
+	if t.Op == "forall" || t.Op == "exists" {
+		return true
+	}
+	for _, a := range t.Args {
+		if hasQuant(a, seen) {
+			return true
+		}
+	}
+	return false
+}
+
+// emitQueryOpt: relaxed=true drops every quantified hypothesis and axiom (fewer assumptions: an unsat answer is
+// still a proof; a sat answer is only a candidate counterexample).
+func emitQueryOpt(hyps []*Term, goal *Term, wantModel bool, relaxed bool) (string, []string) {
+	if relaxed {
+		var hs []*Term
+		for _, h := range hyps {
+			if !hasQuant(h, map[int]bool{}) {
+				hs = append(hs, h)
+			}
+		}
+		hyps = hs
+	}
 	p := &printer{names: map[int]string{}, symbols: map[string]bool{}, sorts: map[*Sort]bool{}, strs: map[string]bool{}, refcnt: map[int]int{}}
 	all := append([]*Term{}, hyps...)
 	neg := tNot(goal)
@@ -937,6 +968,9 @@ func emitQuery(hyps []*Term, goal *Term, wantModel bool) (string, []string) {
 		changed = false
 		for _, ax := range axioms {
 			if usedSet[ax] {
+				continue
+			}
+			if relaxed && hasQuant(ax.Body, map[int]bool{}) {
 				continue
 			}
 			for _, tr := range ax.Triggers {
